@@ -8,14 +8,16 @@ META = {
     "technique": "Coq proof (std++ gmap/gset model of Layer and LayerContents; invariant preserved by every operation, "
                  "hence by induction over ALL operation histories; error => unchanged; save+load exact) + differential "
                  "run of exhaustive and random histories against the implementation",
-    "text": "Kernel-checked over a Gallina model of Layer / LayerContents and the layer part of Font::save / Font::load: "
-            "the invariant (layer names unique, exactly one default layer, first, in 'glyphs', only it may be called "
-            "public.default, glyph map / file-name index / taken-set in step, file names and directories distinct "
-            "ignoring case) holds initially, after loading a well-formed tree, and is preserved by every operation "
-            "except raw Layer::entry access (refuted by witness); an operation that reports an error leaves the state "
-            "unchanged; saving and loading a state that satisfies the invariant reproduces exactly its layers and glyphs. "
-            "The model is tied to the code on every run: tries of all operation sequences up to length 4 over small "
-            "alphabets plus random histories, comparing outcome and full getter-visible state after every operation.",
+    "text": "Kernel-checked over a Gallina model of Layer / LayerContents and the layer part of Font::save / Font::load "
+            "(including the uniqueness / plain-name checks at load): the invariant (layer names unique, exactly one default "
+            "layer, first, in 'glyphs', only it may be called public.default, glyph map / file-name index / taken-set in step, "
+            "file names and directories distinct ignoring case, names valid) holds initially, after loading a tree without "
+            "case-insensitive clashes, and is preserved by every operation except raw Layer::entry access (refuted by witness), "
+            "hence after every history; an operation that reports an error leaves the state unchanged; saving and loading a "
+            "consistent font succeeds and reproduces exactly its layers and glyphs; the only reachable panics are the documented "
+            "99-tries panic and Glyph::new on an invalid name. The model is tied to the code on every run: tries of all "
+            "operation sequences up to length 4 over small alphabets plus random histories, comparing outcome and full "
+            "getter-visible state after every operation, and which start trees Font::load accepts.",
     "note": "Trusted: Coq kernel + VM; the hand-written model of src/layer.rs (tied by the differential run, not by proof); "
             "file-system behaviour of create_dir / plist reading; DataRequest filters are not modelled (C17).",
 }
